@@ -654,10 +654,18 @@ type specLoc struct {
 	key    string
 	ref    *Term
 	lo, hi *Term // index range for slice locations; nil for cells
+	cond   *Term // the location is part of the frame only when this holds (nil: always)
 }
 
 func (u *Unit) evalLoc(env *SpecEnv, e Expr) *specLoc {
 	w := u.W
+	if cl, ok := e.(*ECondLoc); ok {
+		loc := u.evalLoc(env, cl.Loc)
+		if loc != nil {
+			loc.cond = u.evalBool(env, cl.Cond)
+		}
+		return loc
+	}
 	switch x := e.(type) {
 	case *ESlice:
 		base := u.evalSpec(env, x.X)
@@ -712,6 +720,11 @@ func (u *Unit) evalSpecCall(env *SpecEnv, c *ECall) Value {
 	case *EField:
 		if id, ok := fx.X.(*EIdent); ok {
 			name = id.Name + "." + fx.Name
+		} else if inner, ok := fx.X.(*EField); ok {
+			// pkg.Type.Method(recv, args...)
+			if id, ok := inner.X.(*EIdent); ok {
+				name = id.Name + "." + inner.Name + "." + fx.Name
+			}
 		}
 	}
 	arg := func(i int) Value { return u.evalSpec(env, c.Args[i]) }
@@ -833,7 +846,7 @@ func (u *Unit) evalSpecCall(env *SpecEnv, c *ECall) Value {
 		}
 	}
 	// application of a function-typed field, e.g. s.DistanceFunc(a, b)
-	if fe, ok := c.Fun.(*EField); ok {
+	if fe, ok := c.Fun.(*EField); ok && !isPkgTypeMethod(env, fe) {
 		if _, isPkg := fe.X.(*EIdent); !isPkg || func() bool { _, l := env.lookup(fe.X.(*EIdent).Name); return l }() {
 			fv := u.evalSpec(env, fe)
 			if sig, isSig := fv.Ty.Underlying().(*types.Signature); isSig && sig.Results().Len() == 1 && fv.T != nil {
@@ -926,6 +939,20 @@ func (u *Unit) evalSpecCall(env *SpecEnv, c *ECall) Value {
 	}
 	u.specErr("unknown function %q in contract", c.Fun.exprString())
 	return Value{}
+}
+
+// isPkgTypeMethod: the callee has the shape pkg.Type.Method with pkg not a variable in scope
+func isPkgTypeMethod(env *SpecEnv, fe *EField) bool {
+	inner, ok := fe.X.(*EField)
+	if !ok {
+		return false
+	}
+	id, ok := inner.X.(*EIdent)
+	if !ok {
+		return false
+	}
+	_, isVar := env.lookup(id.Name)
+	return !isVar
 }
 
 func (u *Unit) tryResolveType(env *SpecEnv, txt string) (t types.Type) {
